@@ -28,6 +28,22 @@ func dynResolver(c *core.Ctx) func(call ssa.CallInstruction) []*ssa.Function {
 		}
 		v := an.FuncsOfType(c, n.Obj().Pkg().Path(), n.Obj().Name())
 		cache[k] = v
+		if c.Tier == "thorough" {
+			// VTA may only add targets (DESIGN §9)
+			seen := map[*ssa.Function]bool{}
+			for _, f := range v {
+				seen[f] = true
+			}
+			out := append([]*ssa.Function(nil), v...)
+			for _, f := range c.VTACallees(call) {
+				f = an.Unwrap(f)
+				if !seen[f] && core.InModule(f) {
+					seen[f] = true
+					out = append(out, f)
+				}
+			}
+			return out
+		}
 		return v
 	}
 }
